@@ -49,6 +49,30 @@ enum Transport {
 enum Enc {
     Proto,
     Json,
+    /// a different encoding per signal (HTTP only): logs protobuf, traces JSON, metrics protobuf — whatever the signals
+    /// share (the resource) has to be encoded for each of them
+    MixedPjp,
+    /// logs JSON, traces protobuf, metrics JSON
+    MixedJpj,
+}
+
+impl Enc {
+    fn json_for(self, s: Signal) -> bool {
+        match self {
+            Enc::Proto => false,
+            Enc::Json => true,
+            Enc::MixedPjp => s == Signal::Traces,
+            Enc::MixedJpj => s != Signal::Traces,
+        }
+    }
+    fn name(self) -> &'static str {
+        match self {
+            Enc::Proto => "proto",
+            Enc::Json => "json",
+            Enc::MixedPjp => "mixedpjp",
+            Enc::MixedJpj => "mixedjpj",
+        }
+    }
 }
 #[derive(Clone, Copy, PartialEq, Eq, Debug)]
 enum Kind {
@@ -205,7 +229,7 @@ impl Case {
                     "cfg",
                     vec![
                         Sexp::atom(if self.transport == Transport::Http { "http" } else { "grpc" }),
-                        Sexp::atom(if self.enc == Enc::Proto { "proto" } else { "json" }),
+                        Sexp::atom(self.enc.name()),
                         Sexp::bool(self.gzip),
                         Sexp::num(self.limit),
                     ],
@@ -271,9 +295,11 @@ impl Case {
         let enc = match c[1].as_atom()? {
             "proto" => Enc::Proto,
             "json" => Enc::Json,
+            "mixedpjp" => Enc::MixedPjp,
+            "mixedjpj" => Enc::MixedJpj,
             _ => return None,
         };
-        if transport == Transport::Grpc && enc == Enc::Json {
+        if transport == Transport::Grpc && enc != Enc::Proto {
             return None; // not a configuration emit_otlp supports (the request hook rejects the content type)
         }
         let gzip = c[2].as_bool()?;
@@ -377,22 +403,13 @@ fn build_otlp(c: &Collector, transport: Transport, enc: Enc, gzip: bool, sig: [b
     };
     let mut b = emit_otlp::new().resource([("service.name", "hotlp")]);
     if sig[0] {
-        b = b.logs(match enc {
-            Enc::Proto => emit_otlp::logs_proto(t(Signal::Logs)),
-            Enc::Json => emit_otlp::logs_json(t(Signal::Logs)),
-        });
+        b = b.logs(if enc.json_for(Signal::Logs) { emit_otlp::logs_json(t(Signal::Logs)) } else { emit_otlp::logs_proto(t(Signal::Logs)) });
     }
     if sig[1] {
-        b = b.traces(match enc {
-            Enc::Proto => emit_otlp::traces_proto(t(Signal::Traces)),
-            Enc::Json => emit_otlp::traces_json(t(Signal::Traces)),
-        });
+        b = b.traces(if enc.json_for(Signal::Traces) { emit_otlp::traces_json(t(Signal::Traces)) } else { emit_otlp::traces_proto(t(Signal::Traces)) });
     }
     if sig[2] {
-        b = b.metrics(match enc {
-            Enc::Proto => emit_otlp::metrics_proto(t(Signal::Metrics)),
-            Enc::Json => emit_otlp::metrics_json(t(Signal::Metrics)),
-        });
+        b = b.metrics(if enc.json_for(Signal::Metrics) { emit_otlp::metrics_json(t(Signal::Metrics)) } else { emit_otlp::metrics_proto(t(Signal::Metrics)) });
     }
     b.spawn()
 }
@@ -572,7 +589,7 @@ fn run_c12(line: &str) -> String {
             if let Some(m) = &r.malformed {
                 fail.get_or_insert(format!("malformed-request({})", m));
             }
-            if r.grpc != (case.transport == Transport::Grpc) || r.json != (case.enc == Enc::Json) && r.records.is_some() || r.gzip != case.gzip && r.records.is_some() {
+            if r.grpc != (case.transport == Transport::Grpc) || r.json != case.enc.json_for(s) && r.records.is_some() || r.gzip != case.gzip && r.records.is_some() {
                 fail.get_or_insert("transport-configuration-not-honoured".into());
             }
             if r.held {
@@ -726,7 +743,16 @@ fn gen_resp(rng: &mut Rng, transport: Transport, tier: Tier) -> Resp {
 }
 
 fn gen_case(rng: &mut Rng, tier: Tier, next_id: &mut i64) -> Case {
-    let (transport, enc) = *rng.pick(&[(Transport::Http, Enc::Proto), (Transport::Http, Enc::Json), (Transport::Grpc, Enc::Proto)]);
+    let (transport, enc) = *rng.pick(&[
+        (Transport::Http, Enc::Proto),
+        (Transport::Http, Enc::Json),
+        (Transport::Grpc, Enc::Proto),
+        (Transport::Http, Enc::Proto),
+        (Transport::Http, Enc::Json),
+        (Transport::Grpc, Enc::Proto),
+        (Transport::Http, Enc::MixedPjp),
+        (Transport::Http, Enc::MixedJpj),
+    ]);
     let gzip = rng.bool();
     // signal subsets: mostly non-empty
     let sigbits = if rng.chance(1, 50) { 0 } else { rng.range(1, 7) as u8 };
